@@ -10,3 +10,5 @@ open MtailVerif.C20
 #print axioms MtailVerif.C20.loader_skeletons
 #print axioms MtailVerif.C20.line_skeletons
 #print axioms MtailVerif.C20.dispatch_skeletons
+#print axioms MtailVerif.C20.f_vm_vm_skeletons
+#print axioms MtailVerif.C20.f_runtime_runtime_skeletons
